@@ -248,7 +248,9 @@ def opt_model(case):
     s = lambda: round(r.uniform(0.4, 2.5), 3)
     ds = [_normal("d1", "x", [f(), f(), f()], [s(), s(), s()], [f(), f(), f()]),
           _normal("d2", "y", [f()], [s()], [f()], nn=True),
-          _normal("d3", "z", [[f(), f()], [f(), f()]], [[s(), s()], [s(), s()]], [[f(), f()], [f(), f()]])]
+          # (a 2-D x would be read as [samples, dim] by Distribution._sample_shape: the library's
+          #  convention is that leading dimensions are sample dimensions)
+          _normal("d3", "z", [f(), f(), f(), f()], [s(), s(), s(), s()], [f(), f(), f(), f()])]
     if case.get("explicit32"):
         # a parameter with an explicit dtype that differs from the run's default, and one that
         # inherits it through full_like
